@@ -62,6 +62,15 @@ def make_jobs(chk):
             for i in range(0, len(hexes), 2):
                 n += 1
                 jobs.append(SessionJob("e%d:minimal:%s" % (n, sv), b"\x51\x52\x93", [], fl, sv, cmds=["step", "exec " + hexes[i], "exec " + hexes[i + 1] + " OP_DROP", "steps"], cmp=CMP))
+    # several operations in one exec, a later one throws (operand too long / not minimal) or fails: the earlier ones stay applied
+    throwing = [["7", "aabbccddee", "OP_NEGATE"], ["2147483647", "OP_DUP", "OP_ADD", "OP_1ADD"], ["1", "OP_TOALTSTACK", "0102030405", "OP_1ADD"], ["OP_1", "OP_IF", "0102030405", "OP_NOT"],
+                ["5", "6", "OP_SWAP", "0102030405", "OP_ABS"], ["9", "0102030405", "OP_PICK"], ["3", "OP_DUP", "OP_DROP", "0102030405", "8", "OP_ADD"], ["2", "3", "0102030405", "OP_WITHIN"],
+                ["4", "0100", "OP_1ADD"], ["4", "OP_TOALTSTACK", "0080", "OP_NEGATE"], ["5", "OP_DROP", "OP_DROP"], ["6", "OP_FROMALTSTACK"], ["1", "2", "OP_EQUALVERIFY", "3"]]
+    for fl in ([], ["MINIMALDATA"], drivers.STANDARD):
+        for sv in ("BASE", "WITNESS_V0", "TAPSCRIPT"):
+            for t in throwing:
+                n += 1
+                jobs.append(SessionJob("e%d:throw:%s" % (n, sv), b"\x51\x52\x93", [], fl, sv, cmds=["step", "exec " + " ".join(t), "steps"], cmp=CMP))
     # op-count budget shared between script and exec: near the limit
     base = b"\x51" + bytes([O["NOP"]]) * 150
     for extra in (49, 50, 51, 52):
